@@ -98,6 +98,42 @@ structure RenderShape where
     drawing, and the theorems about Gen's gates fail). -/
 inductive Gate | noData | encoding | size (cw : Cmp) (conn : Conn) (ch : Cmp) | unknown (text : String)
   deriving DecidableEq, Repr
+/-- The top-level statements of the placement stretch of (*Vaxis).render, in SOURCE ORDER (round 4): the loop over
+    ` + "`vx.graphicsLast`" + ` (deletes), ` + "`if vx.refresh { vx.graphicsLast = … }`" + `, the loop over ` + "`vx.graphicsNext`" + ` (writes),
+    ` + "`vx.graphicsLast = vx.graphicsNext`" + `; anything else is ` + "`other`" + `. -/
+inductive RStage | deleteLoop | clearLast | writeLoop | saveLast | other
+  deriving DecidableEq, Repr
+/-- One simple statement of the kitty upload code (round 4): ` + "`atomicStore(&k.uploaded, v)`" + `; the chunking loop that
+    appends the new encoding to ` + "`k.buf`" + ` (` + "`for buf.Len() > 0 { … fmt.Fprintf(k.buf, …) }`" + `); ` + "`w.Write(k.buf.Bytes())`" + `;
+    ` + "`k.buf.Reset()`" + `; the ` + "`a=p`" + ` command (` + "`fmt.Fprintf(w, \"…a=p…\", k.id, pid)`" + `); anything else that mentions
+    ` + "`k.uploaded`" + ` or ` + "`k.buf`" + `. -/
+inductive KAct | storeUploaded (v : Bool) | appendChunks | sendBuf | resetBuf | place | other (text : String)
+  deriving DecidableEq, Repr
+/-- A statement of the kitty upload code: a simple one, or ` + "`if !atomicLoad(&k.uploaded) { … }`" + ` /
+    ` + "`if atomicLoad(&k.uploaded) { … }`" + ` around simple ones. -/
+inductive KStmt | act (a : KAct) | ifNotUploaded (body : List KAct) | ifUploaded (body : List KAct)
+  deriving DecidableEq, Repr
+/-- An ` + "`int`" + ` expression of a block image's Draw loop over the loop index ` + "`i`" + `, the image's ` + "`width`" + ` field and the
+    locals ` + "`y`" + `, ` + "`x`" + ` (whatever they are called in the source: named by the order of their definition). -/
+inductive IExpr | i | width | y | x | lit (n : Nat) | div (a b : IExpr) | sub (a b : IExpr) | mul (a b : IExpr)
+  | add (a b : IExpr) | unknown (text : String)
+  deriving DecidableEq, Repr
+/-- What a block image's Draw passes to SetCell: the stored cell itself (half block), or a space of width 1 whose
+    background is the stored colour (full block). -/
+inductive CellForm | stored | spaceOnStoredBg | unknown (text : String)
+  deriving DecidableEq, Repr
+/-- ` + "`for i, cell := range X.cells { <y> := …; <x> := …; win.SetCell(<a>, <b>, <cell>) }`" + ` (round 4): whether the loop
+    ranges over the cell list with index and value, the definitions of the two locals, the two coordinate arguments
+    of SetCell, the cell form; ` + "`extra`" + `: statements of the loop the extractor does not know. -/
+structure DrawLoop where
+  rangeCells : Bool
+  yDef : IExpr
+  xDef : IExpr
+  setCol : IExpr
+  setRow : IExpr
+  cell : CellForm
+  extra : List String
+  deriving DecidableEq, Repr
 
 `
 
@@ -771,6 +807,18 @@ func gen(c *ex.Ctx) {
 
 	// ---- the placement loops of (*Vaxis).render, structured (interpreted by Model/Placements.lean: renderShaped)
 	fmt.Fprintf(&sb, "\n/-- the placement loops of (*Vaxis).render. -/\ndef renderShape : RenderShape := %s\n", renderShape(c))
+	fmt.Fprintf(&sb, "\n/-- the top-level statements of that stretch of render, in source order. -/\ndef renderOrder : List RStage := [%s]\n",
+		strings.Join(renderOrder(c), ", "))
+
+	// ---- the kitty upload code, structured (interpreted by Model/KittyTerm.lean)
+	fmt.Fprintf(&sb, "\n/-- KittyImage.Resize, the goroutine: every statement that touches k.uploaded or k.buf, in source order. -/\ndef kittyResizeBody : List KStmt := [%s]\n",
+		strings.Join(kittyStmts(c, goFuncBody(funcBody(f, "KittyImage", "Resize")), true), ", "))
+	fmt.Fprintf(&sb, "\n/-- KittyImage.Draw: the writeTo closure of the placement, statement by statement. -/\ndef kittyWriteBody : List KStmt := [%s]\n",
+		strings.Join(kittyStmts(c, closureBody(funcBody(f, "KittyImage", "Draw"), "writeFunc"), false), ", "))
+
+	// ---- the Draw loops of the block images, structured (interpreted by Model/KittyTerm.lean: drawLoopOps)
+	fmt.Fprintf(&sb, "\n/-- the loop of HalfBlockImage.Draw. -/\ndef halfDrawLoop : DrawLoop := %s\n", drawLoop(c, ex.FindFunc(f, "HalfBlockImage", "Draw"), "hb"))
+	fmt.Fprintf(&sb, "\n/-- the loop of FullBlockImage.Draw. -/\ndef fullDrawLoop : DrawLoop := %s\n", drawLoop(c, ex.FindFunc(f, "FullBlockImage", "Draw"), "fb"))
 
 	// ---- the gates of KittyImage.Draw / Sixel.Draw, structured (interpreted by Model/ImageDraw.lean)
 	for _, d := range [][3]string{{"KittyImage", "k", "kittyGates"}, {"Sixel", "s", "sixelGates"}} {
@@ -960,7 +1008,7 @@ func renderShape(c *ex.Ctx) string {
 	on := false
 	for _, st := range fd.Body.List {
 		ls, isL := st.(*ast.LabeledStmt)
-		if isL && ls.Label.Name == "outerLast" {
+		if isL && (ls.Label.Name == "outerLast" || ls.Label.Name == "outerNew") {
 			on = true
 		}
 		if !on {
@@ -1099,31 +1147,262 @@ func structuredGates(c *ex.Ctx, fd *ast.FuncDecl, recv string) []string {
 	return out
 }
 
+func funcBody(f *ast.File, recv, name string) []ast.Stmt {
+	fd := ex.FindFunc(f, recv, name)
+	if fd == nil || fd.Body == nil {
+		return nil
+	}
+	return fd.Body.List
+}
+
+// renderOrder: the top-level statements of render from the first of the labels outerLast / outerNew to
+// `vx.graphicsLast = vx.graphicsNext`, in source order.  Never fails.
+func renderOrder(c *ex.Ctx) []string {
+	vf := c.Parse("vaxis.go")
+	if vf == nil {
+		return []string{".other"}
+	}
+	fd := ex.FindFunc(vf, "Vaxis", "render")
+	if fd == nil || fd.Body == nil {
+		return []string{".other"}
+	}
+	var out []string
+	on := false
+	for _, st := range fd.Body.List {
+		ls, isL := st.(*ast.LabeledStmt)
+		if isL && (ls.Label.Name == "outerLast" || ls.Label.Name == "outerNew") {
+			on = true
+		}
+		if !on {
+			continue
+		}
+		t := src(c, st)
+		over := ""
+		if isL {
+			if rs, ok := ls.Stmt.(*ast.RangeStmt); ok {
+				over = src(c, rs.X)
+			}
+		}
+		switch {
+		case isL && ls.Label.Name == "outerLast" && over == "vx.graphicsLast":
+			out = append(out, ".deleteLoop")
+		case isL && ls.Label.Name == "outerNew" && over == "vx.graphicsNext":
+			out = append(out, ".writeLoop")
+		case t == "if vx.refresh { vx.graphicsLast = []*placement{} }":
+			out = append(out, ".clearLast")
+		case t == "vx.graphicsLast = vx.graphicsNext":
+			out = append(out, ".saveLast")
+		default:
+			out = append(out, ".other")
+		}
+		if t == "vx.graphicsLast = vx.graphicsNext" {
+			break
+		}
+	}
+	return out
+}
+
+// kittyAct recognises one simple statement of the upload code; ok=false when the statement does not mention
+// k.uploaded / k.buf and is no placement command (it is then left out when `filter` is set).
+func kittyAct(c *ex.Ctx, st ast.Stmt) (string, bool) {
+	t := src(c, st)
+	flat := strings.ReplaceAll(t, " ", "")
+	switch {
+	case flat == "atomicStore(&k.uploaded,false)":
+		return ".storeUploaded false", true
+	case flat == "atomicStore(&k.uploaded,true)":
+		return ".storeUploaded true", true
+	case flat == "w.Write(k.buf.Bytes())" || flat == "_,_=w.Write(k.buf.Bytes())":
+		return ".sendBuf", true
+	case flat == "k.buf.Reset()":
+		return ".resetBuf", true
+	}
+	if fs, ok := st.(*ast.ForStmt); ok && fs.Init == nil && fs.Post == nil && fs.Cond != nil && src(c, fs.Cond) == "buf.Len() > 0" {
+		// the chunking loop: reads from the local buffer and appends one transmission command per chunk to k.buf
+		appends := false
+		for _, b := range fs.Body.List {
+			bt := strings.ReplaceAll(src(c, b), " ", "")
+			if strings.HasPrefix(bt, "fmt.Fprintf(k.buf,") && strings.Contains(bt, "_Gf=100,i=%d,m=%d;%s") {
+				appends = true
+			}
+		}
+		if appends {
+			return ".appendChunks", true
+		}
+	}
+	if es, ok := st.(*ast.ExprStmt); ok {
+		if call, ok := es.X.(*ast.CallExpr); ok && src(c, call.Fun) == "fmt.Fprintf" && len(call.Args) == 4 &&
+			src(c, call.Args[0]) == "w" && strings.Contains(src(c, call.Args[1]), "_Ga=p,i=%d,p=%d") &&
+			src(c, call.Args[2]) == "k.id" && src(c, call.Args[3]) == "pid" {
+			return ".place", true
+		}
+	}
+	if strings.Contains(t, "k.uploaded") || strings.Contains(t, "k.buf") {
+		return ".other " + ex.LeanStr(t), true
+	}
+	return ".other " + ex.LeanStr(t), false
+}
+
+// kittyStmts: the statements of a body of the kitty upload code as KStmt terms.  With filter set, statements that
+// neither touch k.uploaded / k.buf nor place are left out (the goroutine of Resize also encodes, logs, posts).
+func kittyStmts(c *ex.Ctx, l []ast.Stmt, filter bool) []string {
+	var out []string
+	for _, st := range l {
+		if is, ok := st.(*ast.IfStmt); ok && is.Init == nil && is.Else == nil {
+			cond := strings.ReplaceAll(src(c, is.Cond), " ", "")
+			kind := ""
+			switch cond {
+			case "!atomicLoad(&k.uploaded)":
+				kind = ".ifNotUploaded"
+			case "atomicLoad(&k.uploaded)":
+				kind = ".ifUploaded"
+			}
+			if kind != "" {
+				var acts []string
+				for _, b := range is.Body.List {
+					a, _ := kittyAct(c, b)
+					acts = append(acts, a)
+				}
+				out = append(out, fmt.Sprintf("%s [%s]", kind, strings.Join(acts, ", ")))
+				continue
+			}
+		}
+		a, rel := kittyAct(c, st)
+		if rel || !filter {
+			out = append(out, ".act ("+a+")")
+		}
+	}
+	return out
+}
+
+// iexpr: an int expression of a Draw loop as an IExpr term (names: the loop index, <recv>.width, the two locals).
+func iexpr(c *ex.Ctx, e ast.Expr, names map[string]string) string {
+	switch v := e.(type) {
+	case *ast.ParenExpr:
+		return iexpr(c, v.X, names)
+	case *ast.Ident:
+		if n, ok := names[v.Name]; ok {
+			return n
+		}
+	case *ast.SelectorExpr:
+		if n, ok := names[src(c, v)]; ok {
+			return n
+		}
+	case *ast.BasicLit:
+		if v.Kind == token.INT {
+			if n, err := strconv.ParseUint(v.Value, 0, 32); err == nil {
+				return fmt.Sprintf("(.lit %d)", n)
+			}
+		}
+	case *ast.BinaryExpr:
+		op := map[token.Token]string{token.QUO: ".div", token.SUB: ".sub", token.MUL: ".mul", token.ADD: ".add"}[v.Op]
+		if op != "" {
+			return fmt.Sprintf("(%s %s %s)", op, iexpr(c, v.X, names), iexpr(c, v.Y, names))
+		}
+	}
+	return "(.unknown " + ex.LeanStr(src(c, e)) + ")"
+}
+
+// drawLoop recognises the `for i, cell := range <recv>.cells { … }` of a block image's Draw.  Never fails.
+func drawLoop(c *ex.Ctx, fd *ast.FuncDecl, recv string) string {
+	unk := func(why string) string {
+		return fmt.Sprintf("⟨false, .unknown %s, .unknown %s, .unknown %s, .unknown %s, .unknown %s, [%s]⟩",
+			ex.LeanStr(why), ex.LeanStr(why), ex.LeanStr(why), ex.LeanStr(why), ex.LeanStr(why), ex.LeanStr(why))
+	}
+	if fd == nil || fd.Body == nil {
+		return unk("function not found")
+	}
+	var rs *ast.RangeStmt
+	var extra []string
+	for _, st := range fd.Body.List {
+		if r, ok := st.(*ast.RangeStmt); ok && rs == nil {
+			rs = r
+			continue
+		}
+		t := src(c, st)
+		// reading the origin for the trace line changes nothing
+		if strings.HasSuffix(t, ":= win.Origin()") || strings.HasPrefix(t, "log.") {
+			continue
+		}
+		extra = append(extra, t)
+	}
+	if rs == nil {
+		return unk("no range loop")
+	}
+	iName, cellName := "", ""
+	if id, ok := rs.Key.(*ast.Ident); ok {
+		iName = id.Name
+	}
+	if rs.Value != nil {
+		if id, ok := rs.Value.(*ast.Ident); ok {
+			cellName = id.Name
+		}
+	}
+	rangeCells := src(c, rs.X) == recv+".cells" && iName != "" && iName != "_" && cellName != "" && cellName != "_" && rs.Tok == token.DEFINE
+	names := map[string]string{iName: ".i", recv + ".width": ".width"}
+	defs := []string{".unknown \"missing\"", ".unknown \"missing\""}
+	localNames := []string{".y", ".x"}
+	nDefs := 0
+	setCol, setRow, cell := ".unknown \"missing\"", ".unknown \"missing\"", ".unknown \"missing\""
+	for _, st := range rs.Body.List {
+		if as, ok := st.(*ast.AssignStmt); ok && as.Tok == token.DEFINE && len(as.Lhs) == 1 && len(as.Rhs) == 1 && nDefs < 2 {
+			if id, ok := as.Lhs[0].(*ast.Ident); ok {
+				defs[nDefs] = iexpr(c, as.Rhs[0], names)
+				names[id.Name] = localNames[nDefs]
+				nDefs++
+				continue
+			}
+		}
+		if es, ok := st.(*ast.ExprStmt); ok {
+			if call, ok := es.X.(*ast.CallExpr); ok && src(c, call.Fun) == "win.SetCell" && len(call.Args) == 3 {
+				setCol = iexpr(c, call.Args[0], names)
+				setRow = iexpr(c, call.Args[1], names)
+				ct := strings.ReplaceAll(src(c, call.Args[2]), " ", "")
+				switch {
+				case ct == cellName:
+					cell = ".stored"
+				case ct == "Cell{Character:Character{Grapheme:\"\",Width:1,},Style:Style{Background:"+cellName+",},}":
+					cell = ".spaceOnStoredBg"
+				default:
+					cell = ".unknown " + ex.LeanStr(src(c, call.Args[2]))
+				}
+				continue
+			}
+		}
+		extra = append(extra, src(c, st))
+	}
+	q := make([]string, len(extra))
+	for i, e := range extra {
+		q[i] = ex.LeanStr(e)
+	}
+	rc := "false"
+	if rangeCells {
+		rc = "true"
+	}
+	return fmt.Sprintf("⟨%s, %s, %s, %s, %s, %s, [%s]⟩", rc, defs[0], defs[1], setCol, setRow, cell, strings.Join(q, ", "))
+}
+
+// genFlow: what is still pinned as TEXT (round 4): the format strings of the kitty graphics commands (data, not
+// structure; the harness's regular expression parses exactly these).  Never fails.
 func genFlow(c *ex.Ctx, f *ast.File) {
 	var sb strings.Builder
 	sb.WriteString("namespace VaxisModel.Gen.ImageFlow\n\n")
-	body := func(recv, name string) []ast.Stmt {
-		fd := ex.FindFunc(f, recv, name)
+	var fmts []string
+	for _, name := range []string{"Draw", "Resize", "Destroy"} {
+		fd := ex.FindFunc(f, "KittyImage", name)
 		if fd == nil || fd.Body == nil {
-			return nil
+			continue
 		}
-		return fd.Body.List
+		ast.Inspect(fd.Body, func(n ast.Node) bool {
+			if call, ok := n.(*ast.CallExpr); ok && src(c, call.Fun) == "fmt.Fprintf" && len(call.Args) >= 2 {
+				if b, ok := call.Args[1].(*ast.BasicLit); ok && b.Kind == token.STRING && strings.Contains(b.Value, "_G") {
+					fmts = append(fmts, name+": "+b.Value)
+				}
+			}
+			return true
+		})
 	}
-	emit := func(name, doc string, l []string) {
-		fmt.Fprintf(&sb, "/-- %s -/\ndef %s : List String := %s\n\n", doc, name, leanStrList(l))
-	}
-	// ((*Vaxis).cellPixelSize is structured data in ImageConsts.lean: cellPixelSizeW / cellPixelSizeH)
-	kr := body("KittyImage", "Resize")
-	emit("kittyResizeUpload", "KittyImage.Resize, the goroutine: every statement that touches k.uploaded or k.buf",
-		keep(stmtTexts(c, goFuncBody(kr)), "k.uploaded", "k.buf"))
-	// (the cell-size arithmetic of both Resize methods is structured data in ImageConsts.lean: kittyResize / sixelResize)
-	kd := body("KittyImage", "Draw")
-	emit("kittyWriteFunc", "KittyImage.Draw: the writeTo closure of the placement", stmtTexts(c, closureBody(kd, "writeFunc")))
-	// (the gates of both Draw methods are structured data in ImageConsts.lean: kittyGates / sixelGates)
-	emit("halfDraw", "HalfBlockImage.Draw", stmtTexts(c, body("HalfBlockImage", "Draw")))
-	emit("fullDrawLoop", "FullBlockImage.Draw: the loop header and the two index statements",
-		keep(strings.Split(strings.Join(stmtTexts(c, body("FullBlockImage", "Draw")), " ; "), " ; "), "for i, cell"))
-	// (render's placement loops are structured data in ImageConsts.lean: renderShape)
+	fmt.Fprintf(&sb, "/-- the format strings of the kitty graphics commands written by KittyImage.Draw / Resize / Destroy, in source order -/\ndef kittyFormats : List String := %s\n\n", leanStrList(fmts))
 	sb.WriteString("end VaxisModel.Gen.ImageFlow\n")
 	c.Write("ImageFlow.lean", sb.String())
 }
